@@ -11,7 +11,14 @@ use wow_srp::verif_hooks::internals as hk;
 use wow_srp::verif_hooks::rand as vr;
 use wow_srp::{GENERATOR, LARGE_SAFE_PRIME_LITTLE_ENDIAN as NLE};
 
-pub fn is_fast() -> bool { hk::bigint::roundtrip_le(&[]).is_empty() }
+/// which back end this binary is linked against: the export of zero is `[]` with GMP and `[0]` with num-bigint.
+/// Guarded: if the export of zero itself panics the answer falls back to the build's name (wsvfast / wsv)
+pub fn is_fast() -> bool {
+    match catch(|| hk::bigint::roundtrip_le(&[]).is_empty()) {
+        Some(b) => b,
+        None => std::env::args().next().map(|a| a.contains("wsvfast")).unwrap_or(false),
+    }
+}
 
 fn push(ctx: &mut Ctx, op: u32, label: &str, ins: &[&[u8]], out: Vec<Vec<u8>>) {
     let o: Vec<&[u8]> = out.iter().map(|x| x.as_slice()).collect();
